@@ -4,6 +4,7 @@ import ChythonModel.Proofs.C01Check
 import ChythonModel.Proofs.C01Rename
 import ChythonModel.Proofs.C01ChiralFull
 import ChythonModel.Proofs.C01RenameCum
+import ChythonModel.Proofs.C01Writer
 /-!
 # C01 — canonical SMILES, equality and hash depend on structure only
 
@@ -477,6 +478,37 @@ theorem discrete_equivariant {π : Nat → Nat} {r r' : List (Nat × Nat)} (hrr 
   simp only [mapKeys, List.map_map, Function.comp_def] at this
   exact this.nodup_iff.mpr hd
 
+/-! ### towards the factoring hypothesis: the two choice points of the writer (C02's model `Model/SmilesWriter.lean`) -/
+
+open ChythonModel.Model.SmilesWriter in
+/-- **on candidates with pairwise different weights the writer's two choices are structural**: the order produced by
+    `sorted(front, key=mod_weights)` (`keysFor … true` + `sortKeyed` in `dfsStep`/`traverse`) and the start atom
+    `min(atoms_set, key=mod_weights_start)` (`keysFor … false` + `minKeyed` in `traverse`) of two descriptions correspond
+    under the renaming `π` — whatever the iteration order of the Python `set`s (an *input* of C02's model: `cands'` is any
+    permutation of the renamed candidates), whatever the BFS distances `seen`/`seen'` (they are not even assumed to
+    correspond), whatever the atom numbers (`π` need not be monotone). This is the content of "every `min`/`sorted` key is
+    injective on discrete inputs"; what remains of `FactorsThroughRanksOnDiscrete` is that the rest of `_smiles` (DFS
+    bookkeeping, closure numbers, token formatting) is a function of these choices — C02's subject. -/
+theorem writer_choices_invariant_of_distinct_weights (env env' : Env) (opts : Opts) (hr : opts.random = false)
+    (groups : List (Int × Int)) (seen seen' : List (Nat × Int)) (us us' : Bool) (draws draws' : List (Nat × Nat))
+    (π : Nat → Nat) (cands cands' : List Nat)
+    (hw : ∀ n ∈ cands, env'.weights.lookup (π n) = env.weights.lookup n)
+    (hdis : (cands.map fun n => env.weights.lookup n).Nodup)
+    (hp : cands'.Perm (cands.map π))
+    {ks ks' : List (Nat × Key)} {d d' : List (Nat × Nat)}
+    (hk : keysFor env opts groups seen us draws cands = .ok (ks, d))
+    (hk' : keysFor env' opts groups seen' us' draws' cands' = .ok (ks', d')) :
+    (sortKeyed ks').map (·.1) = ((sortKeyed ks).map (·.1)).map π ∧
+    (minKeyed ks').map (·.1) = ((minKeyed ks).map (·.1)).map π :=
+  writer_choices_of_distinct_weights env env' opts hr groups seen seen' us us' draws draws' π cands cands' hw hdis hp hk hk'
+
+open ChythonModel.Model.SmilesWriter in
+/-- `sorted(front, key=…)` and `min(atoms_set, key=…)` do not depend on the iteration order of the set when the keys are
+    pairwise different (the set orders are inputs of C02's writer model; on discrete molecules they cannot matter) -/
+theorem writer_choices_set_order_independent {α : Type} {l l' : List (α × Key)} (hp : l.Perm l')
+    (hd : (l.map (·.2)).Nodup) : sortKeyed l = sortKeyed l' ∧ minKeyed l = minKeyed l' :=
+  ⟨sortKeyed_perm_of_nodup_keys hp hd, minKeyed_perm_of_nodup_keys hp hd⟩
+
 /-- **smiles_invariant_of_discrete_partial**: the conditional statement, proved for every writer that factors through
     the rank-keyed graph on discrete inputs. Missing for the statement about chython itself: a model of
     `Smiles._smiles` with a proof of `FactorsThroughRanksOnDiscrete`. -/
@@ -652,6 +684,26 @@ example : ChiralFull.chiralFull toyHash (fun _ => true) dblT exAl [(3, true), (1
 /-- `chiral_full_extends_tetrahedral` is not vacuous: the tables of the meso diol exist and the old model answers -/
 example : (match ChiralFull.tablesOf (fun _ => true) dblT exMeso [(2, true), (3, true)] with
     | .ok _ => true | .error _ => false) = true := by decide +kernel
+
+
+/-! ### the writer's choice points: hypotheses of `writer_choices_invariant_of_distinct_weights` on a concrete instance -/
+
+def exEnv : SmilesWriter.Env := { weights := [(1, 3), (2, 1), (3, 2)], setOrders := [], front := [], draws := [] }
+def exEnv' : SmilesWriter.Env := { weights := [(13, 2), (11, 3), (12, 1)], setOrders := [], front := [], draws := [] }
+def exGroups : List (Int × Int) := [(3, -1), (1, -1), (2, -1)]
+
+example : SmilesWriter.keysFor exEnv {} exGroups [(1, 0), (2, 1), (3, 2)] true [] [1, 2, 3] =
+    .ok ([(1, (-1, 3, 0)), (2, (-1, 1, 1)), (3, (-1, 2, 2))], []) := by decide +kernel
+/-- other numbers, another set order, unrelated BFS distances -/
+example : SmilesWriter.keysFor exEnv' {} exGroups [(11, 7), (12, 0), (13, 0)] true [] [13, 11, 12] =
+    .ok ([(13, (-1, 2, 0)), (11, (-1, 3, 7)), (12, (-1, 1, 0))], []) := by decide +kernel
+example : ∀ n ∈ [1, 2, 3], exEnv'.weights.lookup (n + 10) = exEnv.weights.lookup n := by decide
+example : ([1, 2, 3].map fun n => exEnv.weights.lookup n).Nodup := by decide
+example : [13, 11, 12].Perm ([1, 2, 3].map (· + 10)) := by decide
+/-- … and the conclusion on this instance: both sides visit 2, 3, 1 resp. 12, 13, 11 -/
+example : (SmilesWriter.sortKeyed [(13, ((-1 : Int), (2 : Int), (0 : Int))), (11, (-1, 3, 7)), (12, (-1, 1, 0))]).map (·.1) =
+    ((SmilesWriter.sortKeyed [(1, ((-1 : Int), (3 : Int), (0 : Int))), (2, (-1, 1, 1)), (3, (-1, 2, 2))]).map (·.1)).map (· + 10) := by
+  decide +kernel
 
 /-- the hypothesis of `smiles_invariant_of_discrete_partial` is satisfiable: a (toy) writer that prints an
     order-independent digest of the rank-keyed molecule -/
